@@ -831,37 +831,47 @@ func (m *c11Model) login(k int, deny string) c11LoginOutcome {
 	return out
 }
 
-// c11Diff compares an observation with the model. culprit describes the step
-// that was just executed (for choosing the root-cause key); ownLogin is the
-// session whose login the step was (-1 otherwise).
-func c11Diff(m *c11Model, o c11Obs, step string, ownLogin int) *verifkit.Violation {
-	// uuid index
-	uu := make([]string, 0, len(o.byID))
-	for id := range o.byID {
-		uu = append(uu, id)
+// c11Diff judges an observation. It demands exactly what the property states:
+//
+//	(D) every player the model has registered (accepted by the proxy, not yet
+//	    disconnected itself, not replaced in kick mode) is found by Player(uuid)
+//	    and - unless kick mode let a newer player take the name over - by
+//	    PlayerByName in every spelling;
+//	(A) Players() holds at most one player per uuid and, with kicking disabled,
+//	    per case-insensitive name;
+//	(B) PlayerCount() equals the number of registered uuids (= entries of Players());
+//	(C) uuid lookups and the listing describe the same set, and with kicking
+//	    disabled name lookups describe that set too.
+//
+// It does NOT demand that the registry holds nothing else: an entry for a session
+// the model considers unregistered (e.g. a disconnected player that stayed
+// registered) is counted in ghosts and only labelled, because the property only
+// states "stays findable until its own disconnect", not the converse.
+// ownLogin is the session whose login the step was (-1 otherwise), used for
+// choosing the root-cause key.
+func c11Diff(m *c11Model, o c11Obs, step string, ownLogin int) (v *verifkit.Violation, ghosts int) {
+	// (D) uuid index
+	mids := make([]string, 0, len(m.ids))
+	for id := range m.ids {
+		mids = append(mids, id)
 	}
-	sort.Strings(uu)
-	for _, id := range uu {
-		got := o.byID[id]
-		want, ok := m.ids[id]
-		if !ok {
-			want = -1
-		}
-		if got == want {
+	sort.Strings(mids)
+	for _, id := range mids {
+		want := m.ids[id]
+		got, asked := o.byID[id]
+		if !asked || got == want {
 			continue
 		}
 		switch {
-		case want >= 0 && got == -1 && want == ownLogin:
-			return verifkit.Violationf("login-not-visible:id", "%s: session %d was accepted but Player(%s) finds nobody", step, want, id)
-		case want >= 0 && got == -1:
-			return verifkit.Violationf("lost-registration:foreign-teardown", "%s: session %d (%s/%s) is still connected and did not disconnect, but Player(%s) no longer finds it", step, want, m.sess[want].name, id, id)
-		case want >= 0:
-			return verifkit.Violationf("duplicate-registered:id", "%s: Player(%s) returns session %d, the registered owner is session %d", step, id, got, want)
+		case got == -1 && want == ownLogin:
+			return verifkit.Violationf("login-not-visible:id", "%s: session %d was accepted but Player(%s) finds nobody", step, want, id), 0
+		case got == -1:
+			return verifkit.Violationf("lost-registration:foreign-teardown", "%s: session %d (%s/%s) is still connected and did not disconnect, but Player(%s) no longer finds it", step, want, m.sess[want].name, id, id), 0
 		default:
-			return verifkit.Violationf("ghost:id", "%s: Player(%s) returns session %d which is not registered (rejected, failed or disconnected)", step, id, got)
+			return verifkit.Violationf("duplicate-registered:id", "%s: Player(%s) returns session %d, the registered owner is session %d", step, id, got, want), 0
 		}
 	}
-	// name index
+	// (D) name index
 	nn := make([]string, 0, len(o.byName))
 	for n := range o.byName {
 		nn = append(nn, n)
@@ -869,68 +879,85 @@ func c11Diff(m *c11Model, o c11Obs, step string, ownLogin int) *verifkit.Violati
 	sort.Strings(nn)
 	for _, n := range nn {
 		got := o.byName[n]
-		ln := strings.ToLower(n)
-		want, ok := m.names[ln]
-		if ok {
-			if got == want {
-				continue
-			}
-			switch {
-			case got == -1 && want == ownLogin:
-				return verifkit.Violationf("login-not-visible:name", "%s: session %d was accepted but PlayerByName(%q) finds nobody", step, want, n)
-			case got == -1:
-				return verifkit.Violationf("lost-registration:foreign-teardown", "%s: session %d (%s) is still connected and did not disconnect, but PlayerByName(%q) no longer finds it", step, want, m.sess[want].name, n)
-			default:
-				return verifkit.Violationf("duplicate-registered:name", "%s: PlayerByName(%q) returns session %d, the registered owner of the name is session %d", step, n, got, want)
-			}
-		}
-		if got == -1 {
+		want, ok := m.names[strings.ToLower(n)]
+		if !ok || got == want {
 			continue
 		}
-		// No owner in the model. With kicking disabled nobody may be found; in kick
-		// mode an older, still registered player of that name (whose entry a newer
-		// one had taken over) may or may not be found again.
-		okGhost := false
-		if m.kick && got >= 0 {
-			if s := m.sess[got]; s != nil && s.reg && s.lname == ln {
-				okGhost = true
+		switch {
+		case got == -1 && want == ownLogin:
+			return verifkit.Violationf("login-not-visible:name", "%s: session %d was accepted but PlayerByName(%q) finds nobody", step, want, n), 0
+		case got == -1:
+			return verifkit.Violationf("lost-registration:foreign-teardown", "%s: session %d (%s) is still connected and did not disconnect, but PlayerByName(%q) no longer finds it", step, want, m.sess[want].name, n), 0
+		default:
+			return verifkit.Violationf("duplicate-registered:name", "%s: PlayerByName(%q) returns session %d, the registered owner of the name is session %d", step, n, got, want), 0
+		}
+	}
+	// (A) uniqueness inside the listing
+	listed := map[int]bool{}
+	seenU := map[string]bool{}
+	seenN := map[string]bool{}
+	for i, k := range o.players {
+		listed[k] = true
+		if seenU[o.pUUID[i]] {
+			return verifkit.Violationf("players-duplicate:uuid", "%s: Players() lists two players with uuid %s", step, o.pUUID[i]), 0
+		}
+		seenU[o.pUUID[i]] = true
+		if !m.kick {
+			if seenN[o.pLName[i]] {
+				return verifkit.Violationf("players-duplicate:name", "%s: Players() lists two players named %q (kicking disabled)", step, o.pLName[i]), 0
+			}
+			seenN[o.pLName[i]] = true
+		}
+	}
+	// (D) again, through the listing
+	for _, id := range mids {
+		if want := m.ids[id]; !listed[want] {
+			return verifkit.Violationf("lost-registration:players-list", "%s: session %d (%s/%s) is registered and connected but missing from Players() = sessions %v", step, want, m.sess[want].name, id, o.players), 0
+		}
+	}
+	// (C) the listing, the uuid index and (kicking disabled) the name index agree
+	for i, k := range o.players {
+		if got, asked := o.byID[o.pUUID[i]]; asked && got != k {
+			return verifkit.Violationf("index-disagreement:players-vs-id", "%s: Players() lists session %d under uuid %s but Player(uuid) returns session %d", step, k, o.pUUID[i], got), 0
+		}
+		if !m.kick {
+			if got, asked := o.byName[o.pLName[i]]; asked && got != k {
+				return verifkit.Violationf("index-disagreement:players-vs-name", "%s: Players() lists session %d named %q but PlayerByName returns session %d (kicking disabled)", step, k, o.pLName[i], got), 0
 			}
 		}
-		if !okGhost {
-			return verifkit.Violationf("ghost:name", "%s: PlayerByName(%q) returns session %d which is not registered under that name", step, n, got)
-		}
 	}
-	// listing and count
-	want := make([]int, 0, len(m.ids))
-	for _, k := range m.ids {
-		want = append(want, k)
-	}
-	sort.Ints(want)
-	got := append([]int(nil), o.players...)
-	sort.Ints(got)
-	seenU := map[string]bool{}
-	for _, u := range o.pUUID {
-		if seenU[u] {
-			return verifkit.Violationf("players-duplicate:uuid", "%s: Players() lists two players with uuid %s", step, u)
+	for _, id := range c11SortedKeys(o.byID) {
+		if k := o.byID[id]; k >= 0 && !listed[k] {
+			return verifkit.Violationf("index-disagreement:id-vs-players", "%s: Player(%s) returns session %d which Players() does not list", step, id, k), 0
 		}
-		seenU[u] = true
 	}
 	if !m.kick {
-		seenN := map[string]bool{}
-		for _, n := range o.pLName {
-			if seenN[n] {
-				return verifkit.Violationf("players-duplicate:name", "%s: Players() lists two players named %q (kicking disabled)", step, n)
+		for _, n := range nn {
+			if k := o.byName[n]; k >= 0 && !listed[k] {
+				return verifkit.Violationf("index-disagreement:name-vs-players", "%s: PlayerByName(%q) returns session %d which Players() does not list (kicking disabled: name and uuid lookups must describe the same set)", step, n, k), 0
 			}
-			seenN[n] = true
 		}
 	}
-	if fmt.Sprint(got) != fmt.Sprint(want) {
-		return verifkit.Violationf("players-list-mismatch", "%s: Players() = sessions %v, registered sessions are %v", step, got, want)
+	// (B)
+	if o.count != len(o.players) {
+		return verifkit.Violationf("count-mismatch", "%s: PlayerCount() = %d but %d uuids are registered (Players() = sessions %v)", step, o.count, len(o.players), o.players), 0
 	}
-	if o.count != len(m.ids) {
-		return verifkit.Violationf("count-mismatch", "%s: PlayerCount() = %d, %d uuids are registered", step, o.count, len(m.ids))
+	// registrations the model does not know (not a verdict)
+	for _, k := range o.players {
+		if ms := m.sess[k]; ms == nil || !ms.reg {
+			ghosts++
+		}
 	}
-	return nil
+	return nil, ghosts
+}
+
+func c11SortedKeys(m map[string]int) []string {
+	out := make([]string, 0, len(m))
+	for k := range m {
+		out = append(out, k)
+	}
+	sort.Strings(out)
+	return out
 }
 
 // ---------------------------------------------------------------- sequential histories
@@ -1004,6 +1031,14 @@ func c11RunSeq(c c11Case) (res verifkit.Result) {
 			}
 			out := m.login(s.idx, deny)
 			step = fmt.Sprintf("step %d login session %d (%s/%s deny=%q conflict=%q)", i, s.idx, s.name, s.id, deny, out.conflict)
+			if out.registered && s.conn.isClosed() {
+				// The model would accept, the proxy closed the connection. The property
+				// does not promise that a login is accepted: follow the proxy.
+				m.remove(s.idx)
+				out.registered = false
+				out.kicked = -1
+				labels["observed:login-not-accepted"] = true
+			}
 			if out.registered {
 				ownLogin = s.idx
 			}
@@ -1060,8 +1095,13 @@ func c11RunSeq(c c11Case) (res verifkit.Result) {
 		if timeout != nil {
 			return verifkit.Result{Inconclusive: true, Labels: []string{"inconclusive:" + timeout.what}}
 		}
-		if v := c11Diff(m, rig.observe(), step, ownLogin); v != nil {
+		v, ghosts := c11Diff(m, rig.observe(), step, ownLogin)
+		if v != nil {
 			return verifkit.Result{V: v}
+		}
+		if ghosts > 0 {
+			labels["observed:ghost-registration"] = true
+			verifkit.AddNote("C11", "sequential", "observed_ghost_registrations", 1)
 		}
 	}
 	return verifkit.Result{NonTrivial: nt, Labels: c11Keys(labels)}
@@ -1161,7 +1201,7 @@ func c11GenSeq(t *rapid.T) c11Case {
 
 func TestVerif_C11(t *testing.T) {
 	verifkit.Check(t, "C11", "sequential",
-		"stateful histories of 2-12 ops against a real Proxy driven end-to-end through HandleConn (offline / online / online+kick-existing): logins with identities from a pool of 3 names x 3 spellings x natural-or-pool uuids, constructed to collide with earlier logins (exact, other spelling, same uuid other name, same name other uuid), optionally denied at PreLogin / LoginEvent or disconnected inside LoginEvent; client hang-ups and proxy-side Disconnect of any earlier session. After every step PlayerCount, Players, Player(uuid) for every uuid and PlayerByName for all 9 spellings are compared with a model written from the property text. non-trivial = some login met a registered player with the same uuid or case-insensitive name (the loser's connection is torn down while the winner is online)",
+		"stateful histories of 2-12 ops against a real Proxy driven end-to-end through HandleConn (offline / online / online+kick-existing): logins with identities from a pool of 3 names x 3 spellings x natural-or-pool uuids, constructed to collide with earlier logins (exact, other spelling, same uuid other name, same name other uuid), optionally denied at PreLogin / LoginEvent or disconnected inside LoginEvent; client hang-ups and proxy-side Disconnect of any earlier session. After every step a model written from the property text says who must be registered: each of them must be found by Player(uuid), PlayerByName (all 9 spellings) and Players(); the listing must be duplicate-free, agree with the uuid index (and the name index when kicking is off) and with PlayerCount; kick mode must disconnect the older session first. Registry entries of sessions the model considers gone are only counted (observed:ghost-registration). non-trivial = some login met a registered player with the same uuid or case-insensitive name (the loser's connection is torn down while the winner is online)",
 		c11GenSeq, c11RunSeq)
 }
 
@@ -1244,7 +1284,11 @@ func c11RunConcOnce(c c11ConcCase, rep int) (res verifkit.Result, labels map[str
 		if out.registered {
 			own = s.idx
 		}
-		if v := c11Diff(m, rig.observe(), fmt.Sprintf("rep %d prefix login %d session %d (%s/%s conflict=%q)", rep, i, s.idx, s.name, s.id, out.conflict), own); v != nil {
+		if out.registered && s.conn.isClosed() {
+			m.remove(s.idx)
+			own = -1
+		}
+		if v, _ := c11Diff(m, rig.observe(), fmt.Sprintf("rep %d prefix login %d session %d (%s/%s conflict=%q)", rep, i, s.idx, s.name, s.id, out.conflict), own); v != nil {
 			return verifkit.Result{V: v}, labels, false
 		}
 	}
@@ -1420,8 +1464,12 @@ func c11RunConcOnce(c c11ConcCase, rep int) (res verifkit.Result, labels map[str
 		}
 	}
 
-	// some linearization of the batch must explain the final state
+	// Some order of the batch must explain the final state. Per order the model is
+	// run, then batch logins whose connection the proxy closed are taken out of
+	// the model (the property does not promise that a login is accepted), then the
+	// property clauses are checked (c11Diff).
 	var first *verifkit.Violation
+	ghosts := 0
 	found := c11Permute(len(ops), func(order []int) bool {
 		mm := m.clone()
 		for _, oi := range order {
@@ -1433,13 +1481,27 @@ func c11RunConcOnce(c c11ConcCase, rep int) (res verifkit.Result, labels map[str
 				mm.remove(op.sess.idx)
 			}
 		}
-		v := c11Diff(mm, obs, "final state", -1)
+		for _, s := range batchSess {
+			if s != nil && s.conn.isClosed() {
+				mm.remove(s.idx)
+			}
+		}
+		v, g := c11Diff(mm, obs, "final state", -1)
 		if v != nil && first == nil {
 			first = v
+		}
+		if v == nil {
+			ghosts = g
 		}
 		return v == nil
 	})
 	if found {
+		if ghosts > 0 {
+			// e.g. a player disconnected between the Active() check and
+			// registerConnection stays registered: real, but outside the property
+			labels["observed:ghost-registration"] = true
+			verifkit.AddNote("C11", "concurrent", "observed_ghost_registrations", 1)
+		}
 		return verifkit.Result{}, labels, nt
 	}
 
@@ -1450,10 +1512,6 @@ func c11RunConcOnce(c c11ConcCase, rep int) (res verifkit.Result, labels map[str
 	}
 	state := fmt.Sprintf("rep %d: batch [%s]; observed count=%d players=%v byID=%v byName=%v; open sessions=%v; first order differs by: %s",
 		rep, strings.Join(desc, ", "), obs.count, obs.players, obs.byID, obs.byName, rig.openSessions(), first.Msg)
-	listed := map[int]bool{}
-	for _, k := range obs.players {
-		listed[k] = true
-	}
 	for _, s := range rig.sessions() {
 		if s.conn.isClosed() {
 			continue
@@ -1472,10 +1530,9 @@ func c11RunConcOnce(c c11ConcCase, rep int) (res verifkit.Result, labels map[str
 			return verifkit.Fail("lost-registration:foreign-teardown", "session %d (%s/%s) completed its login, is still connected and never disconnected, but PlayerByName(%q) returns session %d (-1 = nobody): its name entry was removed by somebody else. %s", s.idx, s.name, s.id, s.name, obs.byName[s.name], state), labels, nt
 		}
 	}
-	for _, s := range rig.sessions() {
-		if s.conn.isClosed() && (obs.byID[s.id.String()] == s.idx || listed[s.idx]) {
-			return verifkit.Fail("ghost-registration", "session %d (%s/%s) is disconnected but still registered. %s", s.idx, s.name, s.id, state), labels, nt
-		}
+	if first != nil && first.Key != "lost-registration:foreign-teardown" && first.Key != "duplicate-registered:id" && first.Key != "duplicate-registered:name" {
+		// order-independent clauses (uniqueness, count, index agreement)
+		return verifkit.Fail(first.Key, "%s. %s", first.Msg, state), labels, nt
 	}
 	return verifkit.Fail("nonlinearizable", "no order of the batch explains the final registry. %s", state), labels, nt
 }
@@ -1560,6 +1617,6 @@ func c11GenConc(t *rapid.T) c11ConcCase {
 
 func TestVerif_C11_Conc(t *testing.T) {
 	verifkit.Check(t, "C11", "concurrent",
-		"a conflict-free prefix of 0-3 online players, then a batch of 2-6 ops (end-to-end logins colliding with online players or with each other, optionally parked in GameProfileRequestEvent / LoginEvent i.e. before / after the duplicate check, optionally denied; client hang-ups and proxy-side Disconnect of online players; Disconnect of a login parked in LoginEvent) released from one barrier with generated Gosched noise, each batch repeated 20 times on a fresh Proxy under the race detector; the final registry (PlayerCount, Players, Player(uuid), PlayerByName for all spellings) must equal the model after SOME order of the batch (all permutations tried). non-trivial = two batch ops touch the same uuid / case-insensitive name, or a batch login duplicates an online player",
+		"a conflict-free prefix of 0-3 online players, then a batch of 2-6 ops (end-to-end logins colliding with online players or with each other, optionally parked in GameProfileRequestEvent / LoginEvent i.e. before / after the duplicate check, optionally denied; client hang-ups and proxy-side Disconnect of online players; Disconnect of a login parked in LoginEvent) released from one barrier with generated Gosched noise, each batch repeated 20 times on a fresh Proxy under the race detector; under SOME order of the batch (all permutations tried) every player the model keeps registered must be found by Player(uuid)/PlayerByName/Players, the listing must be duplicate-free and agree with the indexes and PlayerCount; no two connected logged-in sessions may share a uuid (or name, kicking off); a stuck registry lock is a violation; registrations of disconnected players are only counted (observed:ghost-registration). non-trivial = two batch ops touch the same uuid / case-insensitive name, or a batch login duplicates an online player",
 		c11GenConc, c11RunConc)
 }
